@@ -172,3 +172,10 @@ bool known(const char *key)
 }
 
 } // namespace vf
+
+// Default (weak) implementations of the library's verification hooks; a
+// target that wants them defines strong versions.
+extern "C" {
+__attribute__((weak)) void br_verif_t0_step(int, void *, const uint32_t *, const uint32_t *, size_t) {}
+__attribute__((weak)) void br_verif_public(const void *, size_t) {}
+}
